@@ -9,6 +9,8 @@ use vmon::prng::Rng;
 pub type Fail = (String, String); // (narrow class, detail)
 
 pub const FULL: (u32, u32) = (0, u32::MAX);
+/// sets up to this size are compared element by element in iteration order
+pub const ROW_IDS_LIMIT: u128 = 20_000;
 
 pub fn addr(f: u32, o: u32) -> u64 {
     ((f as u64) << 32) | o as u64
@@ -102,7 +104,7 @@ pub fn check_map(real: &RowIdTreeMap, model: &IvSet, cand: &BTreeSet<u32>) -> Re
             if has_full {
                 return Err(("row_ids-some-with-full-fragment".into(), String::new()));
             }
-            if model.card() <= 300_000 {
+            if model.card() <= ROW_IDS_LIMIT {
                 let got: Vec<u64> = it.map(u64::from).collect();
                 let want: Vec<u64> = model.iter().collect();
                 if got != want {
@@ -297,7 +299,14 @@ impl Pair {
         }
     }
     pub fn check(&self, what: &str) -> Result<(), Fail> {
-        check_map(&self.real, &self.model, &self.touched).map_err(|(c, d)| (format!("{what}:{c}"), d))
+        check_map(&self.real, &self.model, &self.touched).map_err(|(c, d)| {
+            if c == "is_empty" {
+                // one class whatever operation exposed it: an entry without rows is kept
+                ("is_empty-false-on-set-without-rows".to_string(), format!("after {what}: {d}"))
+            } else {
+                (format!("{what}:{c}"), d)
+            }
+        })
     }
     pub fn frag_is_full(&self, f: u32) -> bool {
         self.model.frag(f) == vec![FULL]
@@ -340,7 +349,7 @@ impl Pools {
             0 => *rng.pick(OFF_POOL),
             1 => rng.below(64) as u32,
             2 => (*rng.pick(OFF_POOL)).wrapping_add(rng.below(5) as u32).wrapping_sub(2),
-            _ => rng.below(200_000) as u32,
+            _ => rng.below(if rng.chance(1, 8) { 200_000 } else { 2_000 }) as u32,
         }
     }
     pub fn val(&self, rng: &mut Rng) -> u64 {
@@ -355,13 +364,14 @@ impl Pools {
             2 | 3 => {
                 // crosses the end of a's fragment
                 let f = (a >> 32) as u32;
-                let k = rng.below(70_000) as u32;
-                let j = rng.below(70_000) as u32;
+                let big = rng.chance(1, 10);
+                let k = rng.below(if big { 70_000 } else { 300 }) as u32;
+                let j = rng.below(if big { 70_000 } else { 300 }) as u32;
                 (addr(f, u32::MAX - k), addr(f.saturating_add(1), j))
             }
             4 => (a, (a | 0xFFFF_FFFF).min(a.saturating_add(rng.below(300)))), // up to the end of the fragment
             5 => (a & !0xFFFF_FFFF, (a & !0xFFFF_FFFF) + rng.below(300)),       // from the start
-            _ => (a, a.saturating_add(rng.below(5_000))),
+            _ => (a, a.saturating_add(rng.below(if rng.chance(1, 10) { 5_000 } else { 200 }))),
         };
         let s = match rng.below(8) {
             0 => B::Exc(lo.wrapping_sub(1)),
@@ -768,7 +778,7 @@ pub fn check_mask_unary(m: &MaskPair, rng: &mut Rng, pools: &Pools) -> Result<()
     }
     // iter_ids: when it answers, exactly the selected rows in ascending order
     if let Some(a) = &m.allow {
-        if a.card() <= 300_000 {
+        if a.card() <= ROW_IDS_LIMIT {
             if let Some(it) = m.real.iter_ids() {
                 let got: Vec<u64> = it.map(u64::from).collect();
                 let want: Vec<u64> = sel.iter().collect();
